@@ -18,10 +18,17 @@ where
 {
     #[inline(always)]
     fn drop(&mut self) {
-        if let Some(chunk) = self.scope.raw.chunk.get().as_non_dummy() {
-            let pos = chunk.pos().addr().get();
+        // Chunks before the current one may have been left with an unaligned position as well,
+        // if allocations inside of the lower-aligned region caused a chunk switch. Such a chunk
+        // becomes current again without its position being reset when this scope was created by
+        // `by_value`, so we need to align all of them.
+        let mut chunk = self.scope.raw.chunk.get().as_non_dummy();
+
+        while let Some(some) = chunk {
+            let pos = some.pos().addr().get();
             let addr = align_pos(S::UP, S::MIN_ALIGN, pos);
-            unsafe { chunk.set_pos_addr(addr) };
+            unsafe { some.set_pos_addr(addr) };
+            chunk = some.prev();
         }
     }
 }
